@@ -23,6 +23,7 @@ func VH_C11_batch() {
 		m.ctx.cancel(vNondet[bool]("deadlineKind"))
 		m.cancelled = true
 		m.cancelThr = -1
+		vCover("cancel-before-run")
 	}
 	attempts := [bMax]int{}
 	exec := func(ctx context.Context, item Result) (Result, error) {
@@ -95,7 +96,6 @@ func VH_C11_batch() {
 		}
 	}
 	if pre {
-		vCover("cancel-before-run")
 		vAssert(m.nstarts == 0, "pre-cancelled-batch-starts-no-item")
 	}
 	if m.stop {
